@@ -114,8 +114,8 @@ EXTRA3 = {
  "C06": " Also: a held-back EXPUNGE always records its message id, so the EXISTS of a connector re-add cannot overtake it.",
  "C07": " Also: DeleteUnchecked of the store is only called with ids created in the same function (fresh ids) or listed as orphans; the named transaction function's error decides commit.",
  "C08": " Also: every pooled connection has foreign keys on (DSN _fk=1); INSERT OR IGNORE / OR REPLACE statements name exactly the columns of one uniqueness constraint, so a swallowed conflict loses nothing.",
- "C09": " Also: every hash.Hash.Sum call is dominated by a Write on the same hasher (Sum's argument is a prefix, not input): the store key really depends on the whole passphrase; Set/Get/Delete name an entry's file by the same expression filepath.Join(path, id.String()) (full id, also through a path helper) and List parses names back with InternalMessageIDFromString.",
- "C10": " Also: no branch on the value of an nDIGIT date/time/zone field leads to an error return in imap/command (RFC 3501 puts no range on them).",
+ "C09": " Also: every hash.Hash.Sum call is dominated by a Write on the same hasher (Sum's argument is a prefix, not input): the store key really depends on the whole passphrase; Set/Get/Delete name an entry's file by the same expression filepath.Join(path, id.String()) (full id, also through a path helper) and List parses names back with InternalMessageIDFromString; a Delete over a list of ids cannot return nil after leaving its loop early.",
+ "C10": " Also: no branch on the value of an nDIGIT date/time/zone field leads to an error return in imap/command (RFC 3501 puts no range on them); a rejection that depends on the text of a flag atom is confined to the matched-backslash edge (flag-keyword = atom).",
  "C11": " Also: ParseNumber/ParseNumberN reject a value above 2^32-1 inside the accumulation loop, on every digit (a check after the loop sees an accumulator that already wrapped).",
  "C13": " Also: the MIME splitter returns a part from the position at which the scan for it started (read once, outside the loop that skips false delimiter matches) and records that same position as the part's offset.",
  "C14": " Also: listInferiors selects a name only through listSuperiors membership or the prefix parent+delimiter (no looser substring/suffix test).",
